@@ -62,7 +62,11 @@ def parseOp (line : String) : Option Op :=
       let (sorg, dorg) := orgPair org
       match orgInfo sorg, orgInfo dorg, [w, h, so, dof, spad, dpad, arg].mapM String.toNat?, (words svs).mapM String.toNat?, (words dvs).mapM String.toNat? with
       | some (su, _), some (du, dr), some [w, h, so, dof, spad, dpad, arg], some sv, some dv =>
-        match mkView sorg sk su w h so spad 0, mkView sorg sk su w h so spad 2000000, mkView dorg dk du w h dof dpad 1000000 with
+        -- second source of tr2: same C++ view type, other traversability class (mirrors s2kind / s2o of the harness)
+        let s2k := match sk with | "full" => "sub" | "sub" => "full" | "flipy" => "full" | "xstep" => "flipx" | "flipx" => "xstep" | k => k
+        let bit := 9 * ((so / 9) % 8)
+        let s2o := match sk with | "full" => 4 + bit | "flipx" => 1 + bit | _ => bit
+        match mkView sorg sk su w h so spad 0, mkView sorg s2k su w h s2o spad 2000000, mkView dorg dk du w h dof dpad 1000000 with
         | some s, some s2, some d =>
           let s2v := match rest with | x :: _ => ((words x).mapM String.toNat?).getD [] | [] => []
           if alg == "imgeq" then
@@ -73,10 +77,11 @@ def parseOp (line : String) : Option Op :=
             let keep := (pf.toNat?.getD 0) / 2 % 2 == 1
             let dimsOf (ww hh al : Nat) : Nat × Nat := if ww * hh = 0 ∧ al ≤ 1 ∧ !keep then (0, 0) else (ww, hh)
             let (w1, h1) := dimsOf w h so
-            let (w2, h2) := dimsOf (w + arg) h dof
+            let (rw2, rh2) := if arg = 2 then (h, w) else (w + arg, h)       -- requested dimensions of image 2
+            let (w2, h2) := dimsOf rw2 rh2 dof
             let a : View := ⟨0, su, rowU su w so sorg, w1, h1⟩
-            let b : View := ⟨1000000, du, rowU du (w + arg) dof dorg, w2, h2⟩
-            if sv.length = w * h ∧ dv.length = (w + arg) * h then some ⟨alg, sorg, dorg, a, s2, b, arg, dr, sv, dv, s2v, sk, dk, pf.toNat?.getD 0⟩ else none
+            let b : View := ⟨1000000, du, rowU du rw2 dof dorg, w2, h2⟩
+            if sv.length = w * h ∧ dv.length = rw2 * rh2 then some ⟨alg, sorg, dorg, a, s2, b, arg, dr, sv, dv, s2v, sk, dk, pf.toNat?.getD 0⟩ else none
           else
           if sv.length = w * h ∧ dv.length = w * h then some ⟨alg, sorg, dorg, s, s2, d, arg, dr, sv, dv, s2v, sk, dk, pf.toNat?.getD 0⟩ else none
         | _, _, _ => none
@@ -152,7 +157,10 @@ def judge (line obs : String) : String :=
           | "cconv" => some (if o.sorg == "gray8" then o.sv.map grayToRgb else o.sv, none, none)
           | "fill" | "fillx" => some (List.replicate n o.arg, none, none)
           | "equal" => some (o.dv, some ((o.sv.zip o.dv).all (fun p => pixEq o.dorg p.1 p.2)), none)
-          | "imgeq" => some (o.dv, some (o.arg == 0 && (o.sv.zip o.dv).all (fun p => pixEq o.dorg p.1 p.2)), none)
+          | "imgeq" =>
+            -- equal iff same dimensions and all pixels equal; arg = 2 requests h x w for image 2 (equal dimensions only for square images)
+            let sameDims := o.arg == 0 || (o.arg == 2 && o.s.w == o.s.h)
+            some (o.dv, some (sameDims && (o.sv.zip o.dv).all (fun p => pixEq o.dorg p.1 p.2)), none)
           | "foreach" | "foreachpos" => some (o.dv.map (fun v => (v + o.arg) % R), none, some o.dv)
           | "generate" | "genx" => some ((List.range n).map (fun k => (o.arg + k) % R), none, none)
           | "tr1" | "trpos" | "tr1x" => some (o.sv.map (fun v => (v * 3 + o.arg) % R), none, none)
